@@ -66,7 +66,7 @@ def gen_att(rng, tier, seed):
     for svc in db['services']:
         for c in svc['chars']:
             if rng.random() < 0.08:
-                c['kind'] = 'raising_cb'
+                c['kind'] = rng.choice(['raising_cb', 'raising_async_cb'])
     twins = rng.random() < 0.2
     if twins:
         # many instances of one service: a search by UUID has more matches than fit into one response
